@@ -664,8 +664,11 @@ def reuse_readers(ctx, rng, okcases, rejcases, failures):
 
 
 def pipeline(ctx, rng, okcases, failures):
-    """Files the reader got right, once more from disk (LF / CRLF, plain / .gz) as a supervised environment:
-    contexts and the rewarded action must be the file's features and label."""
+    """Files the reader got right, once more from disk (LF / CRLF, plain / .gz): ONE ArffSource / CsvSource /
+    LibSvmSource / ManikSource object read twice, ONE supervised environment built on it by
+    Environments.from_supervised read twice (contexts and the rewarded action must be the file's features and
+    label both times), ONE OpenmlSource read twice.  A failure of the first read is a failure of the pipeline; a
+    failure of the second read only is one of reuse."""
     from coba.environments import Environments
     from coba.environments.supervised import ArffSource, CsvSource, LibSvmSource, ManikSource
     from coba.environments.openml import OpenmlSource
@@ -678,6 +681,52 @@ def pipeline(ctx, rng, okcases, failures):
         from coba.environments.supervised import SupervisedSimulation
         env = Environments.from_supervised(*a, **k)[0]
         return env if isinstance(env, SupervisedSimulation) else env[0]
+
+    def arff_check(c, attrs, rows, names, lab, ltype):
+        def check(ints):
+            if len(ints) != len(rows): return ("row-count", "%d interactions for %d rows" % (len(ints), len(rows)))
+            for i, (it, r) in enumerate(zip(ints, rows)):
+                cx = it["context"]
+                if not c["sparse"]:
+                    vals = list(cx)
+                    if len(vals) != lab or not all(cell_ok(x, v, False) for x, v in zip(r[:lab], vals)): return ("context", "interaction %d has context %r, the file says %s" % (i, vals, [show(x) for x in r[:lab]]))
+                else:
+                    items = dict(cx.items())
+                    for k, x in enumerate(r[:lab]):
+                        if x["t"] == "num" and x["n"] == 0:
+                            if items.get(names[k], 0) != 0: return ("context", "interaction %d context %r" % (i, items))
+                        elif names[k] not in items or not cell_ok(x, items[names[k]], True): return ("context", "interaction %d has context %r, the file says %s for %r" % (i, items, show(x), names[k]))
+                    if names[lab] in items: return ("context", "interaction %d still holds the label column: %r" % (i, items))
+                x = r[lab]
+                if ltype == "r":
+                    if it["rewards"](x["n"] / 10) != 0 or it["rewards"](x["n"] / 10 + 1) != -1: return ("label", "interaction %d rewards do not peak at the label %s" % (i, show(x)))
+                else:
+                    best = [a for a in it["actions"] if it["rewards"](a) == 1]
+                    if len(best) != 1 or str(best[0]) != x["s"]: return ("label", "interaction %d rewards %r, the file's label is %s (actions %r)" % (i, best, show(x), it["actions"]))
+            return None
+        return check
+
+    def csv_check(rws, lab):
+        def check(ints):
+            if len(ints) != len(rws): return ("row-count", "%d interactions for %d rows" % (len(ints), len(rws)))
+            for i, (it, r) in enumerate(zip(ints, rws)):
+                if list(it["context"]) != r[:lab]: return ("context", "interaction %d has context %r, the file says %r" % (i, list(it["context"]), r[:lab]))
+                best = [a for a in it["actions"] if it["rewards"](a) == 1]
+                if best != [r[lab]]: return ("label", "interaction %d rewards %r, the file's label is %r" % (i, best, r[lab]))
+            return None
+        return check
+
+    def svm_check(exp, multi):
+        def check(ints):
+            if len(ints) != len(exp): return ("row-count", "%d interactions for %d rows" % (len(ints), len(exp)))
+            for i, (it, (fe, la)) in enumerate(zip(ints, exp)):
+                if dict(it["context"]) != fe: return ("context", "interaction %d has context %r, the file says %r" % (i, dict(it["context"]), fe))
+                if not multi:
+                    best = [a for a in it["actions"] if it["rewards"](a) == 1]
+                    if best != la: return ("label", "interaction %d rewards %r, the file's label is %r" % (i, best, la))
+            return None
+        return check
+
     few = [k for k in okcases if len(k[1]["devs"]) <= 1]          # every file at most one step from the default, and a sample of the rest
     rest = [k for k in okcases if len(k[1]["devs"]) > 1]
     sample = few + rng.sample(rest, min(len(rest), ctx.pick(1200, 12000)))
@@ -685,66 +734,52 @@ def pipeline(ctx, rng, okcases, failures):
     for n, (fmt, c, lines, attrs, rows) in enumerate(sample):
         nl = "\r\n" if n % 2 else "\n"; gz = (n // 2) % 2 == 1
         p = os.path.join(d, "f%d.%s%s" % (n, fmt, ".gz" if gz else ""))
-        with (gzip.open if gz else open)(p, "wb") as f: f.write((nl.join(lines) + (nl if n % 3 else "")).encode("utf-8"))
         how = "%s line ends, %s" % ("CRLF" if nl == "\r\n" else "LF", ".gz" if gz else "plain")
-        bad = None
-        try:
-            if fmt == "arff":
-                names = [a["name"] for a in attrs]; lab = len(names) - 1
-                if any(r[lab]["t"] == "miss" for r in rows) or len(names) < 2: os.remove(p); continue
-                ltype = "r" if attrs[lab]["type"] == "num" else "c"
-                ints = list(simulation(ArffSource(DiskSource(p)), label_col=names[lab], label_type=ltype).read())
-                if len(ints) != len(rows): bad = ("row-count", "%d interactions for %d rows" % (len(ints), len(rows)))
-                for i, (it, r) in enumerate(zip(ints, rows)):
-                    if bad: break
-                    cx = it["context"]
-                    if not c["sparse"]:
-                        vals = list(cx)
-                        if len(vals) != lab or not all(cell_ok(x, v, False) for x, v in zip(r[:lab], vals)): bad = ("context", "interaction %d has context %r, the file says %s" % (i, vals, [show(x) for x in r[:lab]]))
-                    else:
-                        items = dict(cx.items())
-                        for k, x in enumerate(r[:lab]):
-                            if x["t"] == "num" and x["n"] == 0:
-                                if items.get(names[k], 0) != 0: bad = ("context", "interaction %d context %r" % (i, items))
-                            elif names[k] not in items or not cell_ok(x, items[names[k]], True): bad = ("context", "interaction %d has context %r, the file says %s for %r" % (i, items, show(x), names[k]))
-                        if names[lab] in items: bad = ("context", "interaction %d still holds the label column: %r" % (i, items))
-                    if bad: break
-                    x = r[lab]
-                    if ltype == "r":
-                        if it["rewards"](x["n"] / 10) != 0 or it["rewards"](x["n"] / 10 + 1) != -1: bad = ("label", "interaction %d rewards do not peak at the label %s" % (i, show(x)))
-                    else:
-                        best = [a for a in it["actions"] if it["rewards"](a) == 1]
-                        if len(best) != 1 or str(best[0]) != x["s"]: bad = ("label", "interaction %d rewards %r, the file's label is %s (actions %r)" % (i, best, show(x), it["actions"]))
-            elif fmt == "csv":
-                if not c["hdr"] or len(c["names"]) < 2: os.remove(p); continue
-                names = [txt(x) for x in c["names"]]; lab = len(names) - 1
-                rws = [[txt(v) for v in r] for r in c["rows"]]
-                kw = {} if c["delim"] == "," else dict(delimiter=c["delim"])
-                ints = list(simulation(CsvSource(DiskSource(p), has_header=True, **kw), label_col=names[lab], label_type="c").read())
-                if len(ints) != len(rws): bad = ("row-count", "%d interactions for %d rows" % (len(ints), len(rws)))
-                for i, (it, r) in enumerate(zip(ints, rws)):
-                    if bad: break
-                    if list(it["context"]) != r[:lab]: bad = ("context", "interaction %d has context %r, the file says %r" % (i, list(it["context"]), r[:lab]))
-                    best = [a for a in it["actions"] if it["rewards"](a) == 1]
-                    if best != [r[lab]]: bad = ("label", "interaction %d rewards %r, the file's label is %r" % (i, best, r[lab]))
-            else:
-                exp = [({f["i"]: f["n"] / 10 for f in r["feats"]}, list(r["labels"])) for r in c["rows"]]
-                multi = any(len(l) > 1 for _, l in exp)
-                src = (ManikSource if c["manik"] else LibSvmSource)(DiskSource(p))
-                ints = list(simulation(src, label_type="m" if multi else "c").read())
-                if len(ints) != len(exp): bad = ("row-count", "%d interactions for %d rows" % (len(ints), len(exp)))
-                for i, (it, (fe, la)) in enumerate(zip(ints, exp)):
-                    if bad: break
-                    if dict(it["context"]) != fe: bad = ("context", "interaction %d has context %r, the file says %r" % (i, dict(it["context"]), fe))
-                    if not multi:
-                        best = [a for a in it["actions"] if it["rewards"](a) == 1]
-                        if best != la: bad = ("label", "interaction %d rewards %r, the file's label is %r" % (i, best, la))
-        except Exception as ex:
-            bad = ("raises", "%s: %s" % (type(ex).__name__, str(ex)[:100]))
+        if fmt == "arff":
+            names = [a["name"] for a in attrs]; lab = len(names) - 1
+            if any(r[lab]["t"] == "miss" for r in rows) or len(names) < 2: continue
+            ltype = "r" if attrs[lab]["type"] == "num" else "c"
+            mk_src = lambda: ArffSource(DiskSource(p))
+            mk_sim = lambda src: simulation(src, label_col=names[lab], label_type=ltype)
+            check = arff_check(c, attrs, rows, names, lab, ltype)
+            rows_ok = lambda got: read_arff(lines, attrs, rows, c["sparse"], None, got)
+        elif fmt == "csv":
+            if not c["hdr"] or len(c["names"]) < 2: continue
+            names = [txt(x) for x in c["names"]]; lab = len(names) - 1
+            mk_src = lambda: CsvSource(DiskSource(p), has_header=True, **csv_kw(c))
+            mk_sim = lambda src: simulation(src, label_col=names[lab], label_type="c")
+            check = csv_check([[txt(v) for v in r] for r in c["rows"]], lab)
+            rows_ok = lambda got: read_csv(c, None, got)
+        else:
+            exp = [({f["i"]: f["n"] / 10 for f in r["feats"]}, list(r["labels"])) for r in c["rows"]]
+            multi = any(len(l) > 1 for _, l in exp)
+            mk_src = lambda: (ManikSource if c["manik"] else LibSvmSource)(DiskSource(p))
+            mk_sim = lambda src: simulation(src, label_type="m" if multi else "c")
+            check = svm_check(exp, multi)
+            rows_ok = lambda got: read_svm(c, None, got)
+        with (gzip.open if gz else open)(p, "wb") as f: f.write((nl.join(lines) + (nl if n % 3 else "")).encode("utf-8"))
+        tags = arff_tags(c) if fmt == "arff" else plain_tags(c)
         ctx.case(("sup", fmt, n)); ctx.traces += 1; n_sup += 1
-        if bad:
-            tags = arff_tags(c) if fmt == "arff" else plain_tags(c)
-            failures.append(("from_supervised-" + fmt, "pipeline-" + bad[0], tags, "Environments.from_supervised on the file (%s) that the reader alone reads correctly: %s | file: %r" % (how, bad[1], lines), dict(lines=lines, how=how)))
+        # ---- one source object, read twice ----
+        src = mk_src()
+        for k, which in enumerate(("first", "second")):
+            try: o = rows_ok(list(src.read()))
+            except Exception as ex: o = Outcome("raises", "", "%s: %s" % (type(ex).__name__, str(ex)[:100]))
+            if o.kind != "ok":
+                what = "%s over DiskSource (%s), %s read of the same object: %s %s | file: %r" % (type(src).__name__, how, which, "raised" if o.kind == "raises" else "misread " + o.aspect + ":", o.what, lines)
+                failures.append(("source-" + fmt, "pipeline-" + (o.aspect or "raises"), tags if k == 0 else "source-%s:reused-source:second-read" % fmt, what, dict(lines=lines, how=how, read=which)))
+                break
+        # ---- one environment from Environments.from_supervised, read twice ----
+        try: sim = mk_sim(mk_src())
+        except Exception as ex: sim = None; failures.append(("from_supervised-" + fmt, "pipeline-raises", tags, "Environments.from_supervised(%s) raised %s: %s | file: %r" % (how, type(ex).__name__, str(ex)[:100], lines), dict(lines=lines, how=how)))
+        for k, which in enumerate(("first", "second")):
+            if sim is None: break
+            try: bad = check(list(sim.read()))
+            except Exception as ex: bad = ("raises", "%s: %s" % (type(ex).__name__, str(ex)[:100]))
+            if bad:
+                what = "Environments.from_supervised on the file (%s) that the reader alone reads correctly, %s read of the same environment: %s | file: %r" % (how, which, bad[1], lines)
+                failures.append(("from_supervised-" + fmt, "pipeline-" + bad[0], tags if k == 0 else "from_supervised-%s:reused-environment:second-read" % fmt, what, dict(lines=lines, how=how, read=which)))
+                break
         os.remove(p)
         # ---- OpenmlSource(drop_missing=True) from a pre-filled cache: rows with a missing value go, the others stay ----
         # (the feature description is JSON beside the file: names that OpenmlSource._clean_name would alter - quotes
@@ -759,21 +794,26 @@ def pipeline(ctx, rng, okcases, failures):
             CobaContext.cacher.get_set("openml_000007_feat", json.dumps(feat).splitlines())
             CobaContext.cacher.get_set("openml_000007_arff", list(lines))
             keep = [r for r in rows if not any(x["t"] == "miss" for x in r)]
-            bad = None
-            try:
-                got = list(OpenmlSource(data_id=7).read())
-                if len(got) != len(keep): bad = ("row-count", "%d rows survive drop_missing, the file has %d rows without a missing value" % (len(got), len(keep)))
-                for g, r in zip(got, keep):
-                    if bad: break
-                    feats, label, _ = g.labeled
-                    if not c["sparse"]:
-                        if not all(cell_ok(x, v, False) for x, v in zip(r[:-1], list(feats))) or not cell_ok(r[-1], label, False): bad = ("value", "row %r / label %r, the file says %s" % (list(feats), label, [show(x) for x in r]))
-                    else:
-                        if not cell_ok(r[-1], label, True): bad = ("value", "label %r, the file says %s" % (label, show(r[-1])))
-            except Exception as ex:
-                bad = ("raises", "%s: %s" % (type(ex).__name__, str(ex)[:100]))
+            oml = OpenmlSource(data_id=7)
             ctx.case(("oml", n)); ctx.traces += 1; n_oml += 1
-            if bad: failures.append(("openml-" + ("sparse" if c["sparse"] else "dense"), "pipeline-" + bad[0], arff_tags(c), "OpenmlSource(drop_missing=True) on a cached ARFF file the reader alone reads correctly: %s | file: %r" % (bad[1], lines), dict(lines=lines)))
+            for k, which in enumerate(("first", "second")):
+                bad = None
+                try:
+                    got = list(oml.read())
+                    if len(got) != len(keep): bad = ("row-count", "%d rows survive drop_missing, the file has %d rows without a missing value" % (len(got), len(keep)))
+                    for g, r in zip(got, keep):
+                        if bad: break
+                        feats, label, _ = g.labeled
+                        if not c["sparse"]:
+                            if not all(cell_ok(x, v, False) for x, v in zip(r[:-1], list(feats))) or not cell_ok(r[-1], label, False): bad = ("value", "row %r / label %r, the file says %s" % (list(feats), label, [show(x) for x in r]))
+                        else:
+                            if not cell_ok(r[-1], label, True): bad = ("value", "label %r, the file says %s" % (label, show(r[-1])))
+                except Exception as ex:
+                    bad = ("raises", "%s: %s" % (type(ex).__name__, str(ex)[:100]))
+                if bad:
+                    name = "openml-" + ("sparse" if c["sparse"] else "dense")
+                    failures.append((name, "pipeline-" + bad[0], arff_tags(c) if k == 0 else name + ":reused-source:second-read", "OpenmlSource(drop_missing=True) on a cached ARFF file the reader alone reads correctly, %s read of the same object: %s | file: %r" % (which, bad[1], lines), dict(lines=lines, read=which)))
+                    break
     ctx.extra["from_supervised_runs"] = n_sup; ctx.extra["openml_runs"] = n_oml
 
 
